@@ -83,10 +83,14 @@ func RunExtra(c *core.Ctx, l *core.Ledger) {
 
 var extraRules = map[string][]func(*core.Ctx, *core.Ledger){
 	"C01": {
-		func(c *core.Ctx, l *core.Ledger) { checkUnsafeLen(c, l, "UNSAFE-LEN", []string{"wire", "protocol/binary"}) },
+		func(c *core.Ctx, l *core.Ledger) {
+			checkUnsafeLen(c, l, "UNSAFE-LEN", []string{"wire", "protocol/binary"})
+		},
 	},
 	"C02": {
-		func(c *core.Ctx, l *core.Ledger) { checkUnsafeLen(c, l, "UNSAFE-LEN", []string{"wire", "protocol/binary"}) },
+		func(c *core.Ctx, l *core.Ledger) {
+			checkUnsafeLen(c, l, "UNSAFE-LEN", []string{"wire", "protocol/binary"})
+		},
 		func(c *core.Ctx, l *core.Ledger) { checkStopExact(c, l, "STOP-EXACT") },
 		func(c *core.Ctx, l *core.Ledger) { checkPools(c, l) },
 	},
@@ -94,7 +98,9 @@ var extraRules = map[string][]func(*core.Ctx, *core.Ledger){
 		func(c *core.Ctx, l *core.Ledger) { checkStopExact(c, l, "STOP-EXACT") },
 	},
 	"C04": {
-		func(c *core.Ctx, l *core.Ledger) { checkUnsafeLen(c, l, "UNSAFE-LEN", []string{"wire", "protocol/binary"}) },
+		func(c *core.Ctx, l *core.Ledger) {
+			checkUnsafeLen(c, l, "UNSAFE-LEN", []string{"wire", "protocol/binary"})
+		},
 	},
 	"C05": {
 		func(c *core.Ctx, l *core.Ledger) { checkStopExact(c, l, "STOP-EXACT") },
@@ -112,7 +118,9 @@ var extraRules = map[string][]func(*core.Ctx, *core.Ledger){
 		func(c *core.Ctx, l *core.Ledger) { checkLookupExact(c, l, "LOOKUP-EXACT") },
 	},
 	"C08": {
-		func(c *core.Ctx, l *core.Ledger) { checkIndexGuard(c, l, "INDEX-GUARD", []string{"idl/internal", "idl"}) },
+		func(c *core.Ctx, l *core.Ledger) {
+			checkIndexGuard(c, l, "INDEX-GUARD", []string{"idl/internal", "idl"})
+		},
 	},
 	"C11": {
 		func(c *core.Ctx, l *core.Ledger) { checkPosLookup(c, l, "POS-LOOKUP") },
